@@ -2,7 +2,8 @@
 
 (a) metropolis-stream-replay: `ref_metropolis` below is an independently written random-walk Metropolis (from the property
     text) that replays the same RandomState(seed) stream; elfi's metropolis must equal it state by state (exact float
-    equality: same operations in the same order).  Grid: dims 1-3 x targets {smooth, hard boundary, NaN region,
+    equality: same operations in the same order; the reference is a float64 chain whatever the numpy dtype of params0 /
+    sigma_proposals - integer-typed and float32 starting points are in the grid).  Grid: dims 1-3 x targets {smooth, hard boundary, NaN region,
     -inf/NaN/+inf regions} x warm-up values x lengths x seeds; plus the start-validity clause (ValueError iff the start
     has infinite log-target).
 (b) sampler-contract-grid (metropolis and nuts): requested length, deterministic in the seed (also when the GLOBAL numpy
@@ -88,6 +89,11 @@ def _mcmc():
     return m
 
 
+def _arr(inp, key='x0'):
+    """the array argument in the numpy dtype the case asks for (default float64)"""
+    return np.array(inp[key]).astype(inp.get(key + '_dtype', 'float64'))
+
+
 def start_point(d, name):
     return np.array([0.1, -0.2, 0.3][:d]) if name != 'steep' else np.array([0.01, -0.02, 0.03][:d])
 
@@ -119,8 +125,8 @@ def check_metropolis_case(inp, mod=None):
     """-> None or a failure dict(what, input)"""
     mod = mod or _mcmc()
     tgt = TARGETS[inp['target']][0]
-    x0 = np.array(inp['x0'], dtype=float)
-    sigma = np.array(inp['sigma'], dtype=float)
+    x0 = _arr(inp)
+    sigma = _arr(inp, 'sigma')
     n, w, seed = inp['n_samples'], inp['warmup'], inp['seed']
     t0 = tgt(x0)
     try:
@@ -140,7 +146,7 @@ def check_metropolis_case(inp, mod=None):
     got = np.asarray(got)
     if got.shape != (n,) + x0.shape:
         return dict(what='length: returned shape %s, requested %s' % (got.shape, (n,) + x0.shape), input=inp)
-    ref = ref_metropolis(n, x0, tgt, sigma, w, seed)
+    ref = ref_metropolis(n, x0.astype(float), tgt, sigma.astype(float), w, seed)      # the reference chain is float64 whatever the dtype of the arguments
     if not np.array_equal(got, ref):
         bad = int(np.argmax(np.any(got != ref, axis=tuple(range(1, got.ndim))))) if got.ndim > 1 else int(np.argmax(got != ref))
         return dict(what='chain: state %d differs from the random-walk Metropolis chain of the seed (got %s, chain %s)' % (bad, got[bad].tolist(), ref[bad].tolist()), input=inp)
@@ -160,6 +166,15 @@ def metropolis_cases(tier, seed):
                     for sig in (0.4, 1.5):
                         yield dict(fn='metropolis', target=name, x0=start_point(d, name).tolist(), sigma=[sig * (1 + 0.5 * j) for j in range(d)],
                                    n_samples=n, warmup=w, seed=sd)
+    # starting points / scales that are not float64 arrays (integer-typed, float32): the chain must still be the float64 chain of the seed
+    for name in ('gauss', 'box', 'nanregion', 'mixed'):
+        for d in (1, 2, 3):
+            for n, w in ((9, 0), (20, 6)):
+                for sd in list(seeds)[:2]:
+                    for dt in ('int64', 'int32', 'float32'):
+                        x0 = [0, 1, 0][:d] if dt.startswith('int') else start_point(d, name).tolist()
+                        yield dict(fn='metropolis', target=name, x0=x0, x0_dtype=dt, sigma=[0.7 * (1 + 0.5 * j) for j in range(d)], n_samples=n, warmup=w, seed=sd)
+                    yield dict(fn='metropolis', target=name, x0=start_point(d, name).tolist(), sigma=[1, 2, 1][:d], sigma_dtype='int64', n_samples=n, warmup=w, seed=sd)
     # start validity: infinite start must be refused, valid start accepted
     for name, x0 in (('box', [2.0]), ('box', [2.0, 0.0]), ('mixed', [1.5]), ('mixed', [0.91]), ('box', [1.5]), ('box', [-1.0, 1.5])):
         yield dict(fn='metropolis', target=name, x0=x0, sigma=[0.5] * len(x0), n_samples=5, warmup=2, seed=seed)
@@ -247,7 +262,7 @@ def ref_nuts(n_iter, x0, logp, grad, n_adapt, eps0, seed, delta=0.6, max_depth=5
 
 def _run_nuts(mod, inp, perturb_global=False):
     tgt, grd = TARGETS[inp['target']]
-    x0 = np.array(inp['x0'], dtype=float)
+    x0 = _arr(inp)
     kw = dict(n_adapt=inp.get('n_adapt'), seed=inp['seed'])
     if inp.get('stepsize') is not None:
         kw['stepsize'] = inp['stepsize']
@@ -268,7 +283,7 @@ def _run_metropolis(mod, inp, perturb_global=False):
         np.random.rand(3)
     with native.time_limit(20):
         with np.errstate(all='ignore'):
-            return np.asarray(mod.metropolis(inp['n_samples'], np.array(inp['x0'], dtype=float), tgt, np.array(inp['sigma'], dtype=float),
+            return np.asarray(mod.metropolis(inp['n_samples'], _arr(inp), tgt, _arr(inp, 'sigma'),
                                              warmup=inp['warmup'], seed=inp['seed']))
 
 
@@ -278,7 +293,7 @@ def check_contract_case(inp, mod=None):
     run = _run_nuts if inp['fn'] == 'nuts' else _run_metropolis
     n = inp['n_iter'] if inp['fn'] == 'nuts' else inp['n_samples']
     tgt = TARGETS[inp['target']][0]
-    x0 = np.array(inp['x0'], dtype=float)
+    x0 = _arr(inp)
     t0 = tgt(x0)
     try:
         a = run(mod, inp)
@@ -307,7 +322,7 @@ def check_contract_case(inp, mod=None):
 def check_nuts_replay_case(inp, mod=None):
     mod = mod or _mcmc()
     tgt, grd = TARGETS[inp['target']]
-    x0 = np.array(inp['x0'], dtype=float)
+    x0 = _arr(inp).astype(float)
     try:
         got = _run_nuts(mod, inp)
     except native.NativeTimeout as e:
@@ -351,6 +366,11 @@ def nuts_replay_cases(tier, seed):
                     if name == 'steep':
                         eps = eps * 0.3
                     yield dict(fn='nuts-replay', target=name, x0=start_point(d, name).tolist(), n_iter=n_iter, n_adapt=n_adapt, stepsize=eps, max_depth=md, seed=sd)
+    for name in ('gauss', 'box', 'mixed'):
+        for d in (1, 2):
+            for dt in ('int64', 'int32', 'float32'):
+                x0 = [0, 1][:d] if dt.startswith('int') else start_point(d, name).tolist()
+                yield dict(fn='nuts-replay', target=name, x0=x0, x0_dtype=dt, n_iter=10, n_adapt=4, stepsize=0.5, max_depth=4, seed=seed)
 
 
 CHECKS = {'metropolis': check_metropolis_case, 'nuts': check_contract_case, 'nuts-replay': check_nuts_replay_case, 'metropolis-contract': check_contract_case}
@@ -384,7 +404,7 @@ def _run(name, bound, rule, cases, check, nontrivial_of, first_failure_only=True
 def run_all(tier='quick', seed=0):
     out = []
     out.append(_run('metropolis-stream-replay',
-                    'dims 1-3; targets gauss/box/nanregion/mixed; (n_samples,warmup) up to (%s); 2 proposal scales; seeds %d..; 6 start-validity cases' % (
+                    'dims 1-3; targets gauss/box/nanregion/mixed; (n_samples,warmup) up to (%s); 2 proposal scales; seeds %d..; params0 of dtype float64 / int64 / int32 / float32 and integer-typed sigma (reference chain always float64); 6 start-validity cases' % (
                         '30,13' if tier == 'quick' else '120,40', seed),
                     'non-trivial = target with a hard boundary / NaN / +-inf region (rejections for non-finite log-target occur)',
                     metropolis_cases(tier, seed), check_metropolis_case, lambda i: int(i['target'] != 'gauss')))
@@ -394,7 +414,7 @@ def run_all(tier='quick', seed=0):
                     'non-trivial = nuts run, or target with non-finite regions',
                     contract_cases(tier, seed), check_contract_case, lambda i: int(i['fn'] == 'nuts' or i['target'] != 'gauss')))
     out.append(_run('nuts-stream-replay',
-                    'dims 1-3; targets gauss/box/mixed/steep; n_iter up to %d; given initial step size; max_depth 3/5; seeds %d..' % (14 if tier == 'quick' else 40, seed),
+                    'dims 1-3; targets gauss/box/mixed/steep; n_iter up to %d; given initial step size; max_depth 3/5; seeds %d..; 18 cases with int64 / int32 / float32 params0' % (14 if tier == 'quick' else 40, seed),
                     'non-trivial = every case (trees of depth > 1 with U-turn / divergence terminations occur in all of them)',
                     nuts_replay_cases(tier, seed), check_nuts_replay_case, lambda i: 1))
     return out
